@@ -3,6 +3,7 @@ import AslModel.Dtoa
 import AslProofs.JsonSpec
 import AslProofs.XdlEnc
 import AslProofs.XdlX
+import AslProofs.XdlXP
 /-!
 # C05 — JSON (and XDL) encoding round-trips every Var
 
@@ -99,21 +100,25 @@ theorem file_roundtrip (g : Nat → UInt64 → Bytes) (m : Mode) (hj : m.json = 
 def double_roundtrip_full (g : Nat → UInt64 → Bytes) (atof : Bytes → UInt64) : Prop :=
   ∀ b : UInt64, dFinite b = true → b.toNat % 2 ^ 63 ≠ 0 → atof (g 17 b) = b
 
-/-- XDL round trip in PRETTY layout (newline-separated members and items): K only -/
-def xdl_roundtrip_pretty_full (g : Nat → UInt64 → Bytes) : Prop :=
-  ∀ (m : Mode) (v : EV), m.json = false → m.pretty = true → AslProofs.XdlX.WFX v → H1 g → AslProofs.XdlX.xdepth v ≤ 1000 →
-    decode (encode g m v) = some (some (AslProofs.XdlX.xnorm g m v))
+/-! ## XDL -/
 
-/-! ## XDL (proved for the compact layout) -/
-
-/-- `Xdl::decode(Xdl::encode(v, mode))` without PRETTY, for trees whose keys are identifiers and whose
+/-- `Xdl::decode(Xdl::encode(v, mode))`, compact or PRETTY, for trees whose keys are identifiers and whose
     `$type` is a class name: the result is `xnorm v` — same structure, same keys, strings, booleans
     (written `Y`/`N`), numbers as the decoder classifies their lexemes, the class name back as `$type`,
-    undefined members dropped (nesting ≤ 1000) -/
-theorem xdl_roundtrip_compact (g : Nat → UInt64 → Bytes) (m : Mode) (hp : m.pretty = false) (hj : m.json = false)
+    undefined members dropped (nesting ≤ 1000).  PRETTY separates members and long arrays by newlines only,
+    which the parser reads in its WAIT_COMMA_OR_* states. -/
+theorem xdl_roundtrip (g : Nat → UInt64 → Bytes) (m : Mode) (hj : m.json = false)
     (hg : H1 g) (v : EV) (hw : AslProofs.XdlX.WFX v) (hd : AslProofs.XdlX.xdepth v ≤ 1000) :
-    decode (encode g m v) = some (some (AslProofs.XdlX.xnorm g m v)) :=
-  AslProofs.XdlX.xdl_decode_encode g m hp hj hg v hw hd
+    decode (encode g m v) = some (some (AslProofs.XdlX.xnorm g m v)) := by
+  cases hp : m.pretty
+  · exact AslProofs.XdlX.xdl_decode_encode g m hp hj hg v hw hd
+  · exact AslProofs.XdlX.xdl_decode_encode_pretty g m hp hj hg v hw hd
+
+/-- what comes back for scalars in XDL: the same boolean, string, and int (when it has at most 9 characters) -/
+theorem xdl_roundtrip_scalars (g : Nat → UInt64 → Bytes) (m : Mode) (s : Bytes) (b : Bool) :
+    AslProofs.XdlX.xnorm g m (.str s) = .str s ∧ AslProofs.XdlX.xnorm g m (.bool b) = .bool b ∧
+    AslProofs.XdlX.xnorm g m .null = .null := by
+  simp [AslProofs.XdlX.xnorm]
 
 /-- non-vacuity of the XDL hypotheses: `Point{on=Y,x=1}` -/
 example : AslProofs.XdlX.WFX (.obj [(classKey, .str [80, 111, 105, 110, 116]), ([111, 110], .bool true), ([120], .int 1)]) := by
